@@ -30,54 +30,27 @@ class ViolationFound(Exception):
     pass
 
 
-def _layout_key(case):
-    """Cheap deterministic key of a case (shapes and leading bytes of its arrays)."""
-    import zlib
-    h = 0
-    stack = [case]
-    while stack:
-        v = stack.pop()
-        if isinstance(v, dict):
-            stack.extend(v[k] for k in sorted(v, reverse=True))
-        elif isinstance(v, (list, tuple)):
-            stack.extend(reversed(v))
-        elif isinstance(v, np.ndarray):
-            h = zlib.crc32(repr(v.shape).encode() + np.ascontiguousarray(v).tobytes()[:64], h)
-    return h
-
-
-def _relayout_array(a, mode):
-    if not isinstance(a, np.ndarray) or a.dtype.kind not in "fiu" or a.ndim not in (1, 2) or a.size == 0:
-        return a
-    if mode == "F":
-        return np.asfortranarray(a).copy(order="F") if a.ndim == 2 else a.copy()
-    if a.ndim == 1:
-        big = np.zeros(2 * len(a), dtype=a.dtype)
-        big[::2] = a
-        return big[::2]
-    big = np.zeros((a.shape[0] + 1, 2 * a.shape[1]), dtype=a.dtype)
-    big[1:, ::2] = a
-    return big[1:, ::2]
-
-
 def relayout(case):
-    """'For every input' includes the memory layout: a deterministic 40 % of the cases hand their arrays to the check in Fortran
-    order or as non-contiguous strided views (same values, so every oracle is unaffected).  The stored / replayed case is the original."""
-    if not isinstance(case, dict):
-        return case, "C"
-    mode = ["C", "C", "C", "C", "C", "C", "F", "F", "strided", "strided"][_layout_key(case) % 10]
-    if mode == "C":
-        return case, mode
+    """A shallow copy of the case whose numeric arrays (top level, and inside dicts / lists two levels deep) went through
+    core.vary_layout: each array independently C (50 %), Fortran-ordered (25 %) or a strided view (25 %).  The stored / replayed
+    case is always the original."""
+    from vf.core import layout_name, vary_layout
+    seen = collections.Counter()
 
     def conv(v, depth=0):
         if isinstance(v, np.ndarray):
-            return _relayout_array(v, mode)
+            w = vary_layout(v)
+            if v.ndim == 2:
+                seen[layout_name(w)] += 1
+            return w
         if depth < 2 and isinstance(v, dict):
             return {k: conv(x, depth + 1) for k, x in v.items()}
         if depth < 2 and isinstance(v, list):
             return [conv(x, depth + 1) for x in v]
         return v
-    return conv(case), mode
+    if not isinstance(case, dict):
+        return case, seen
+    return conv(case), seen
 
 
 class HarnessAbort(Exception):
@@ -135,8 +108,9 @@ class Harness:
     def run_check(self, case):
         ctx = Ctx(self.tier, self.active_known)
         if getattr(self.mod, "LAYOUTS", True) and os.environ.get("VERIF_LAYOUTS", "1") != "0":
-            case, mode = relayout(case)
-            ctx.cls("layout=" + mode)
+            case, seen = relayout(case)
+            for k, v in seen.items():
+                ctx.count("arrays_layout_" + k, v)
         signal.alarm(self.watchdog_s)
         try:
             with warnings.catch_warnings():
